@@ -20,6 +20,7 @@ pub enum RspM {
     Pair(u8, u16, u16),   // 06 0F 10
     Regs(u8, Vec<u16>),   // 03 04 17
     Custom(u8, Vec<u8>),
+    Res(u8),              // 07: read exception status (serial line only), one status byte
     Exc(u8, u8),          // function (< 0x80), exception code
 }
 
@@ -141,6 +142,10 @@ pub fn rsp_bytes(m: &RspM) -> Vec<u8> {
         RspM::Custom(c, d) => {
             o.push(*c);
             o.extend(d);
+        }
+        RspM::Res(x) => {
+            o.push(0x07);
+            o.push(*x);
         }
         RspM::Exc(f, k) => {
             o.push(f + 0x80);
